@@ -133,8 +133,16 @@ impl CertificateSigningRequestParams {
 				match ext {
 					x509_parser::extensions::ParsedExtension::KeyUsage(key_usage) => {
 						// This x509 parser stores flags in reversed bit BIT STRING order
-						params.key_usages =
-							KeyUsagePurpose::from_u16(key_usage.flags.reverse_bits());
+						let flags = key_usage.flags.reverse_bits();
+						params.key_usages = KeyUsagePurpose::from_u16(flags);
+						// A bit without a `KeyUsagePurpose` can't be carried over
+						let known_flags = params
+							.key_usages
+							.iter()
+							.fold(0, |flags, usage| flags | usage.to_u16());
+						if known_flags != flags {
+							return Err(Error::UnsupportedExtension);
+						}
 					},
 					x509_parser::extensions::ParsedExtension::SubjectAlternativeName(san) => {
 						for name in &san.general_names {
